@@ -1,6 +1,6 @@
 (* Family dispatch: the single entry point of the extracted model. *)
 From Coq Require Import ZArith List Bool.
-From UV Require Import Verdict PositJudge FixpntModel IntegerModel LnsModel CfloatModel ArealModel QuireModel.
+From UV Require Import Verdict PositJudge FixpntModel IntegerModel LnsModel CfloatModel ArealModel QuireModel SqrtModel Ops.
 Import ListNotations.
 Local Open Scope Z_scope.
 Definition FAM_posit : Z := 1.
@@ -12,10 +12,10 @@ Definition FAM_integer : Z := 4.
 Definition FAM_lns : Z := 5.
 Definition judge (fam : Z) (cfg : list Z) (op : Z) (args res : list Z) : verdict :=
   if Z.eqb fam FAM_posit then judge_posit cfg op args res else
-  if Z.eqb fam FAM_cfloat then judge_cfloat cfg op args res else
+  if Z.eqb fam FAM_cfloat then (if Z.eqb op OP_sqrt then judge_sqrt_cfloat cfg args res else judge_cfloat cfg op args res) else
   if Z.eqb fam FAM_areal then judge_areal cfg op args res else
   if Z.eqb fam FAM_quire then judge_quire cfg op args res else
-  if Z.eqb fam FAM_fixpnt then judge_fixpnt cfg op args res else
-  if Z.eqb fam FAM_integer then judge_integer cfg op args res else
+  if Z.eqb fam FAM_fixpnt then (if Z.eqb op OP_sqrt then judge_sqrt_fixpnt cfg args res else judge_fixpnt cfg op args res) else
+  if Z.eqb fam FAM_integer then (if Z.eqb op OP_sqrt then judge_sqrt_integer cfg args res else judge_integer cfg op args res) else
   if Z.eqb fam FAM_lns then judge_lns cfg op args res else
   mkV false [] false.
